@@ -171,6 +171,24 @@ theorem all_messageSetFile (ms : MsgSt) (dir name : Bytes) (fd : Option Handle) 
   cases strlcpyFits_some hn
   repeat' (first | exact .inr rfl | all_step)
 
+theorem quiet_messageSetFileMoved (ms : MsgSt) (s d : Subdir) (dir name : Bytes) :
+    Calls Quiet (messageSetFileMoved ms s d dir name) := by
+  unfold messageSetFileMoved
+  simp only [bind_eq, pure_eq, call_bind]
+  repeat' quiet_step
+
+theorem all_messageSetFileMoved (ms : MsgSt) (s d : Subdir) (dir name : Bytes) :
+    All (fun r => r.1.name = ms.name ∨ r.1.name = name) (messageSetFileMoved ms s d dir name) := by
+  unfold messageSetFileMoved
+  simp only [bind_eq, pure_eq, call_bind]
+  split
+  · exact .inl rfl
+  split
+  · exact .inl rfl
+  rename_i n hn
+  cases strlcpyFits_some hn
+  repeat' (first | exact .inr rfl | all_step)
+
 /-! ## scripts that remove or rename -/
 
 theorem spec_genname (src : Bytes) (env : PEnv) (md : Maildir) (flags : Option Bytes) (fuel count : Nat) (tr : Trace) :
@@ -219,13 +237,21 @@ theorem spec_setFile (src : Bytes) (ms : MsgSt) (dir name : Bytes) (fd : Option 
   · rw [h]; own
   · rw [h]; own
 
-theorem spec_moveTail (src : Bytes) (dst : Maildir) (dh fd : Handle) (dstname : Bytes) (ms' : MsgSt) (b : Bool) (mt : Option Nat)
+theorem spec_setFileMoved (src : Bytes) (ms : MsgSt) (s d : Subdir) (dir name : Bytes) (T : Trace)
+    (h1 : Own src T ms.name) (h2 : name ∈ createdNames T) :
+    wp R (OwnI src) (messageSetFileMoved ms s d dir name) (fun x tr' => Own src tr' x.1.name) T := by
+  refine wp_mono (wp_ext (wp_quiet src (quiet_messageSetFileMoved ms s d dir name) (all_messageSetFileMoved ms s d dir name) T)) ?_
+  rintro x tr' ⟨h | h, L, rfl⟩
+  · rw [h]; own
+  · rw [h]; own
+
+theorem spec_moveTail (src : Bytes) (sm dst : Maildir) (dh fd : Handle) (dstname : Bytes) (ms' : MsgSt) (b : Bool) (mt : Option Nat)
     (T : Trace) (h1 : Own src T ms'.name) (h2 : dstname ∈ createdNames T) :
     wp R (OwnI src)
       (Prog.call (Call.close fd) fun _ =>
         (if (!b && mt.isSome) = true then Prog.call (Call.utimensat dh dstname none mt) fun r => Prog.ret !isOk r
             else Prog.ret b).bind
-          fun err2 => if err2 = true then Prog.ret (ms', true) else messageSetFile ms' dst.path dstname none)
+          fun err2 => if err2 = true then Prog.ret (ms', true) else messageSetFileMoved ms' sm.subdir dst.subdir dst.path dstname)
       (fun x tr' => Own src tr' x.1.name) T := by
   refine wp_call (quiet_ownI _ _ _ True.intro) fun r _ => ?_
   refine wp_bind_ext (P := fun _ _ => True) ?_ ?_
@@ -236,7 +262,7 @@ theorem spec_moveTail (src : Bytes) (dst : Maildir) (dh fd : Handle) (dstname : 
   split
   · show Own src _ ms'.name
     own
-  · exact spec_setFile src ms' _ _ _ _ (by own) (by own)
+  · exact spec_setFileMoved src ms' _ _ _ _ _ (by own) (by own)
 
 theorem spec_maildirMove (src : Bytes) (env : PEnv) (s dst : Maildir) (ms : MsgSt) (tr : Trace)
     (hown : Own src tr ms.name) :
@@ -287,8 +313,8 @@ theorem spec_maildirMove (src : Bytes) (env : PEnv) (s dst : Maildir) (ms : MsgS
     split
     · refine wp_bind_ext (spec_maildirUnlink src dst dstname _ (by own)) ?_
       intro _ L3 _
-      exact spec_moveTail src dst dh fd dstname ms' err1 doutime _ (by own) (by own)
-    · exact spec_moveTail src dst dh fd dstname ms' err1 doutime _ (by own) (by own)
+      exact spec_moveTail src s dst dh fd dstname ms' err1 doutime _ (by own) (by own)
+    · exact spec_moveTail src s dst dh fd dstname ms' err1 doutime _ (by own) (by own)
 
 theorem spec_maildirWrite (src : Bytes) (env : PEnv) (md : Maildir) (ms : MsgSt) (tr : Trace)
     (hown : Own src tr ms.name) :
